@@ -1,6 +1,7 @@
 package main
 
 import (
+	"fmt"
 	"go/token"
 	"go/types"
 	"strings"
@@ -103,6 +104,35 @@ func runC11(c *Ctx) {
 			c.Check(n == 1, "C11.M2-varint-scratch-holds", "positive example fires", token.NoPos, "rule found the seeded two-varints-in-one-scratch example (and nothing in /repo)", "rule did not find the seeded example: it would pass vacuously")
 		}
 		c.Floor("C11.M2-varint-scratch-holds", 1)
+	}
+	// ---- M10 varints are read strictly: the decoders rebuild what they consumed from the decoded values
+	// (UvarintSize(v) bytes per prefix), which is right only if the reader rejects padded encodings. go-varint's
+	// readers do; encoding/binary's accept them, so a padded prefix would decode, re-encode to other bytes and shift
+	// the offset at which the next protocol is read.
+	{
+		lax := func(cc *Ctx, fns []*Fn) []ssa.Instruction {
+			var out []ssa.Instruction
+			for _, f := range fns {
+				for _, cs := range cc.Calls(f.SSA, Or(Call("encoding/binary.ReadUvarint"), Call("encoding/binary.Uvarint"), Call("encoding/binary.ReadVarint"), Call("encoding/binary.Varint"))) {
+					out = append(out, cs.In)
+				}
+			}
+			return out
+		}
+		nStrict := 0
+		for _, f := range c.Funcs(metaPkg) {
+			nStrict += len(c.Calls(f.SSA, Or(Call("go-varint.ReadUvarint"), Call("go-varint.FromUvarint"))))
+		}
+		for _, in := range lax(c, c.Funcs(metaPkg)) {
+			c.Bad("C11.M10-varints-read-strictly", c.short(in.Parent().String())+" › varint reader", in.Pos(), "a varint is read with encoding/binary's reader, which accepts padded encodings: input with a padded prefix decodes, re-encodes to different bytes and the next protocol is read at a shifted offset")
+		}
+		c.Check(nStrict >= 3, "C11.M10-varints-read-strictly", "metadata › strict readers", token.NoPos, fmt.Sprint(nStrict)+" varint reads, all through go-varint (minimal encodings only)", "fewer varint reads through go-varint than the decoders need (3): "+fmt.Sprint(nStrict))
+		if pc := c.posex(); pc == nil {
+			c.Unk("C11.M10-varints-read-strictly", "positive example", token.NoPos, "positive example package could not be loaded")
+		} else {
+			c.Check(len(lax(pc, pc.Funcs("ipnicheck/testdata/posex"))) == 1, "C11.M10-varints-read-strictly", "positive example fires", token.NoPos, "rule found the seeded encoding/binary read (and none in metadata)", "rule did not find its positive example: it would pass vacuously")
+		}
+		c.Floor("C11.M10-varints-read-strictly", 2)
 	}
 	// ---- M2 bounded allocation in every ReadFrom ------------------------------------------------
 	iface, _ := p.Types.Scope().Lookup("Protocol").(*types.TypeName)
